@@ -351,7 +351,22 @@ class World:
         CTX.counters["corrupt_" + kind] += 1
         return {"changed": nb != b}
 
+    @staticmethod
+    def _encodable(patterns):
+        """Exclusion patterns are text: a pattern aimed at a file name that is not valid UTF-8
+        cannot be written into a UTF-8 configuration file and is left out."""
+        out = []
+        for p in patterns:
+            try:
+                p.encode("utf-8")
+                out.append(p)
+            except UnicodeEncodeError:
+                pass
+        return out
+
     def op_set_yml(self, patterns, verbose=None, where=""):
+        if patterns is not None:
+            patterns = self._encodable(patterns)
         full = self.p(os.path.join(where, ".codelimit.yml") if where else ".codelimit.yml")
         if where and not os.path.isdir(self.p(where)):
             return {"noop": "missing_dir"}
@@ -370,6 +385,8 @@ class World:
         return {}
 
     def op_set_gitignore(self, patterns, where=""):
+        if patterns is not None:
+            patterns = self._encodable(patterns)
         full = self.p(os.path.join(where, ".gitignore") if where else ".gitignore")
         if where and not os.path.isdir(self.p(where)):
             return {"noop": "missing_dir"}
